@@ -262,6 +262,15 @@ func sequential(seed int64, retain uint, nOps int) {
 			hist = append(hist, fmt.Sprintf("lost %d", k))
 			from := s.Len()
 			want := m.pop(k)
+			failFirst := len(want) > 0 && rng.Intn(5) == 0
+			if failFirst {
+				// a transient transmission failure inside the resend batch: that message is
+				// dropped (not retained again), the rest of the batch still goes out
+				failNext.Store(true)
+				hist[len(hist)-1] += " (first retransmission fails)"
+				want = want[1:]
+				atomic.AddInt64(&nFailed, 1)
+			}
 			if !deliver(s, &knxnet.RoutingLost{Count: uint16(k)}, sig) {
 				return
 			}
@@ -613,6 +622,57 @@ func inbound(seed int64, n int, reader string) {
 	r.DistinctStr(sig)
 }
 
+// strand: rounds of three routing indications against a reader that comes back
+// late: after every round all three must have been read. A message stranded in
+// the client's overflow queue (queued, but no goroutine left to hand it over)
+// shows as a round that never completes.
+func strand(seed int64, rounds int) {
+	sig := fmt.Sprintf("strand rounds=%d seed=%d", rounds, seed)
+	r.Crumb("C14 %s", sig)
+	s := memsock.New("udp")
+	rt, err := knx.NewRouterOnSocket(s, knx.RouterConfig{})
+	if err != nil {
+		return
+	}
+	defer rt.Close()
+	in := rt.Inbound()
+	fast := time.NewTimer(time.Hour)
+	defer fast.Stop()
+	next := uint32(1)
+	tm := time.NewTimer(time.Hour)
+	defer tm.Stop()
+	for round := 0; round < rounds; round++ {
+		base := next
+		for k := 0; k < 3; k++ {
+			fast.Reset(10 * time.Second)
+			if taken, expired := s.DeliverFast(&knxnet.RoutingInd{Payload: gateway.Ind(next)}, fast); expired || !taken {
+				r.Violate("receive-loop.stuck", map[string]string{"workload": "any"}, map[string]interface{}{"history": sig}, "[%s] the receive loop stopped taking indications", sig)
+				return
+			}
+			next++
+		}
+		tm.Reset(3 * time.Second)
+		for k := 0; k < 3; k++ {
+			select {
+			case m := <-in:
+				id, _ := gateway.IDOfMessage(m)
+				if id != base+uint32(k) {
+					r.Violate("inbound.exactly-once", map[string]string{"workload": "strand"}, map[string]interface{}{"history": sig, "round": round, "got": id, "want": base + uint32(k)}, "[%s] round %d: read message %d where %d was due", sig, round, id, base+uint32(k))
+					return
+				}
+				atomic.AddInt64(&nInbound, 1)
+			case <-tm.C:
+				r.Violate("inbound.stranded", map[string]string{"workload": "strand"}, map[string]interface{}{"history": sig, "round": round, "missing": base + uint32(k), "goroutines": clip(mon.LibGoroutines("knx-go/knx."))},
+					"[%s] round %d: routing indication %d was received by the client but never reached Inbound within 3 s (stranded in the overflow queue)", sig, round, base+uint32(k))
+				return
+			}
+		}
+	}
+	atomic.AddInt64(&nHist, 1)
+	r.Eval(1)
+	r.DistinctStr(sig)
+}
+
 func head(a []uint32) []uint32 {
 	if len(a) > 10 {
 		return a[:10]
@@ -645,18 +705,21 @@ func run(rr *mon.Run) {
 	defer runtime.GOMAXPROCS(runtime.NumCPU())
 	retains := []uint{0, 1, 2, 5, 32, 64}
 	ns := r.Pick(36, 3000)
-	for i := 0; i < ns; i++ {
+	for i := 0; i < ns && !r.Enough(); i++ {
 		runtime.GOMAXPROCS([]int{2, 16, 4}[i%3])
 		sequential(r.Seed()*9000+int64(i), retains[i%6], 300)
 	}
 	nc := r.Pick(18, 1500)
-	for i := 0; i < nc; i++ {
+	for i := 0; i < nc && !r.Enough(); i++ {
 		runtime.GOMAXPROCS([]int{2, 16, 4}[i%3])
 		concurrent(r.Seed()*9100+int64(i), retains[(i+1)%6], 1+i%8, 60)
 	}
 	ni := r.Pick(6, 500)
-	for i := 0; i < ni; i++ {
+	for i := 0; i < ni && !r.Enough(); i++ {
 		inbound(r.Seed()*9200+int64(i), 300, []string{"draining", "slow", "absent-then-drain"}[i%3])
+	}
+	if !r.Enough() {
+		strand(r.Seed()*9300, r.Pick(30000, 600000))
 	}
 	r.Observe("histories_completed", nHist)
 	r.Observe("sends", nSends)
